@@ -596,3 +596,6 @@ where
     self.source.actual_subscribe(observer)
   }
 }
+
+// ---------------------------------------------------------------- C01.P4
+pub fn ctl_unsafe(p: *const u8) -> u8 { unsafe { *p } }
